@@ -164,9 +164,50 @@ def runEnc : List String → Option EncRes
 
 def isPanic (impl : String) : Bool := impl.startsWith "panic"
 
-def step (_ : Unit) (op impl : String) : Unit × DrvOut :=
+/-- canonical text of the value inside an `ok <value> [<consumed>]` answer -/
+def valueOf (ans : String) (withN : Bool) : Option String :=
+  match ans.splitOn " " with
+  | "ok" :: rest =>
+    let ws := if withN then rest.dropLast else rest
+    some (" ".intercalate ws)
+  | _ => none
+
+/-- driver state: values retained by `keep` ops since the last `reset`, as printed by the model and
+as printed by the implementation at decode time -/
+structure St where
+  model : List String := []
+  impl : List String := []
+
+def stepKeep (st : St) (op impl : String) : Option (St × DrvOut) :=
   match words op with
-  | ["reset"] => ((), { model := "ok" })
+  | ["reset"] => some ({}, { model := "ok" })
+  | "keep" :: rest =>
+    match rest.getLast?, rest.dropLast with
+    | some hx, kind =>
+      match parseB hx with
+      | some b =>
+        match runDec kind b with
+        | some (ans, _) =>
+          let withN := kind != ["pr"]
+          let st' : St :=
+            { model := match valueOf ans withN with | some v => st.model ++ [v] | none => st.model,
+              impl := match valueOf impl withN with | some v => st.impl ++ [v] | none => st.impl }
+          some (st', { model := ans, spec := if impl.startsWith "panic" then "FAIL decoder panicked on arbitrary bytes" else "ok" })
+        | none => some (st, { model := "bad-op" })
+      | none => some (st, { model := "bad-op" })
+    | none, _ => some (st, { model := "bad-op" })
+  | ["recheck"] =>
+    let show_ (l : List String) := " | ".intercalate (toString l.length :: l)
+    -- the property on the implementation's own answers: every retained value still prints as it did
+    -- when it was decoded (decode(encode x) = x must keep holding while the session goes on)
+    some (st, { model := show_ st.model,
+                spec := if impl == show_ st.impl then "ok"
+                        else "FAIL a decoded value changed after later decodes/encodes (it aliases a recycled buffer)" })
+  | _ => none
+
+def step1 (op impl : String) : DrvOut :=
+  match words op with
+  | ["reset"] => { model := "ok" }
   | ["vi", v] =>
     match v.toNat? with
     | some v =>
@@ -176,9 +217,9 @@ def step (_ : Unit) (op impl : String) : Unit × DrvOut :=
       let model := s!"{Hex.encode b} {b.length} {d1} {d2}"
       -- the property on the implementation's answer: size table + both decoders return v
       let expect := s!"{Hex.encode b} {varintLen v} ok {v} {varintLen v} ok {v} {varintLen v}"
-      ((), { model, spec := if impl == expect then "ok" else
+      ({ model, spec := if impl == expect then "ok" else
         if isPanic impl then "FAIL varint codec panicked" else "FAIL varint does not round-trip / wrong size" })
-    | none => ((), { model := "bad-op" })
+    | none => ({ model := "bad-op" })
   | "dec" :: rest =>
     match rest.getLast?, rest.dropLast with
     | some hx, kind =>
@@ -186,10 +227,10 @@ def step (_ : Unit) (op impl : String) : Unit × DrvOut :=
       | some b =>
         match runDec kind b with
         | some (ans, _) =>
-          ((), { model := ans, spec := if isPanic impl then "FAIL decoder panicked on arbitrary bytes" else "ok" })
-        | none => ((), { model := "bad-op" })
-      | none => ((), { model := "bad-op" })
-    | none, _ => ((), { model := "bad-op" })
+          ({ model := ans, spec := if isPanic impl then "FAIL decoder panicked on arbitrary bytes" else "ok" })
+        | none => ({ model := "bad-op" })
+      | none => ({ model := "bad-op" })
+    | none, _ => ({ model := "bad-op" })
   | "mem" :: rest =>
     match rest.getLast?, rest.dropLast with
     | some hx, kind =>
@@ -198,12 +239,12 @@ def step (_ : Unit) (op impl : String) : Unit × DrvOut :=
         match runDec kind b, impl.toNat? with
         | some (_, a), some n =>
           let bound := 2 * a + 16 * b.length + 4096
-          ((), { model := "-", spec := if n ≤ bound then "ok" else
+          ({ model := "-", spec := if n ≤ bound then "ok" else
             s!"FAIL decoder allocated {n} bytes, the model accounts for {a} (bound {bound})" })
-        | some _, none => ((), { model := "-", spec := "FAIL unparsable implementation answer" })
-        | none, _ => ((), { model := "bad-op" })
-      | none => ((), { model := "bad-op" })
-    | none, _ => ((), { model := "bad-op" })
+        | some _, none => ({ model := "-", spec := "FAIL unparsable implementation answer" })
+        | none, _ => ({ model := "bad-op" })
+      | none => ({ model := "bad-op" })
+    | none, _ => ({ model := "bad-op" })
   | "enc" :: rest =>
     match runEnc rest with
     | some e =>
@@ -221,9 +262,14 @@ def step (_ : Unit) (op impl : String) : Unit × DrvOut :=
             -- violation of the round-trip property, not a known finding.
             "FAIL frameLenOverflow: REQUEST_ERROR payload exceeds the 16-bit length field (the server builds the reason from an unbounded string); the frame is emitted with a truncated length and does not decode"
           else "ok"
-        ((), { model, spec })
-      | none => ((), { model := "bad-op" })
-    | none => ((), { model := "bad-op" })
-  | _ => ((), { model := "bad-op" })
+        ({ model, spec })
+      | none => ({ model := "bad-op" })
+    | none => ({ model := "bad-op" })
+  | _ => ({ model := "bad-op" })
 
-def main (args : List String) : IO UInt32 := runDriver args () step
+def step (st : St) (op impl : String) : St × DrvOut :=
+  match stepKeep st op impl with
+  | some r => r
+  | none => (st, step1 op impl)
+
+def main (args : List String) : IO UInt32 := runDriver args ({} : St) step
